@@ -37,6 +37,11 @@ type streamInst struct {
 	digestSize int
 	// absorb folds one Write argument into the state; ok=false ⇒ the library must return an error.
 	absorb func(state, p []byte, le bool) ([]byte, bool)
+	// refused describes what a refused Write leaves behind (what the tree documents/does): the new state and
+	// the byte count the call reports. MiMC: "do not keep a partially absorbed input" — nothing, n=0.
+	// Merkle–Damgård wrapper: the blocks before the refused one are compressed into the state and
+	// counted in n (io.Writer: n = bytes written before the error).
+	refused func(state, p []byte, le bool) ([]byte, int)
 	// validState: SetState of arbitrary bytes is documented (MiMC); nil ⇒ only saved states are restored.
 	validState func(b []byte) bool
 	// shortTail: a Write may end with a short block after full blocks (Merkle–Damgård wrapper).
@@ -59,6 +64,7 @@ func mimcStream(m *mimcInst) *streamInst {
 			}
 			return R.Bytes(R.Absorb(new(big.Int).SetBytes(state), bl)), true
 		},
+		refused: func(state, p []byte, le bool) ([]byte, int) { return state, 0 },
 		validState: func(b []byte) bool {
 			return len(b) == m.blockSize && new(big.Int).SetBytes(b).Cmp(R.F.Q) < 0
 		},
@@ -77,6 +83,17 @@ func mdStream(p *p2Inst) *streamInst {
 		absorb: func(state, w []byte, _ bool) ([]byte, bool) {
 			s, err := md.Absorb(state, md.Split(w))
 			return s, err == nil
+		},
+		refused: func(state, w []byte, _ bool) ([]byte, int) {
+			s, n := append([]byte{}, state...), 0
+			for _, b := range md.Split(w) {
+				nx, ok := md.F(s, b)
+				if !ok {
+					break
+				}
+				s, n = nx, n+bs
+			}
+			return s, n
 		},
 	}
 }
@@ -154,6 +171,61 @@ type machine struct {
 	lastWasW bool
 	nontriv  bool
 	tag      string // instance label in multi-instance histories
+	pending  bool   // accepted data since the last Sum/State/SetState/Reset (still buffered in a MiMC hasher)
+	keep     *keptSet
+}
+
+// kept is a slice the hasher handed out (Sum with any prefix kind, State). It belongs to the caller: no
+// later call on this or on any other hasher may change it, and writing to it must not disturb a hasher.
+type kept struct {
+	live, snap []byte
+	what       string
+	owner      *machine
+	digest     []byte // the owner's digest when the slice was returned
+	scribbled  bool
+}
+
+type keptSet struct{ items []*kept }
+
+func (k *keptSet) add(it *kept) {
+	it.snap = append([]byte{}, it.live...)
+	k.items = append(k.items, it)
+	if len(k.items) > 12 {
+		k.items = k.items[1:]
+	}
+}
+
+// verifyKept compares every slice handed out earlier (by any instance sharing the set) with its snapshot.
+func (m *machine) verifyKept(after string) {
+	if m.keep == nil {
+		return
+	}
+	for _, it := range m.keep.items {
+		if !bytes.Equal(it.live, it.snap) {
+			m.fail("the slice returned earlier by %s on instance %s[%s]%s changed after %s: was %x, now %x (returned slices belong to the caller)",
+				it.what, it.owner.si.name, it.owner.c.name, it.owner.tag, after, it.snap, it.live)
+		}
+	}
+}
+
+// scribbleKept overwrites one kept slice and appends to it, then checks that no hasher noticed.
+func (m *machine) scribbleKept() {
+	if m.keep == nil || len(m.keep.items) == 0 {
+		m.t.Skip("nothing kept")
+	}
+	it := m.keep.items[rapid.IntRange(0, len(m.keep.items)-1).Draw(m.t, "keptIdx")]
+	for i := range it.live {
+		it.live[i] ^= 0x96
+	}
+	it.live = append(it.live, bytes.Repeat([]byte{0xEE}, rapid.IntRange(1, 5).Draw(m.t, "app"))...)
+	it.snap = append([]byte{}, it.live...)
+	it.scribbled = true
+	m.logf("scribble(%s of %s)", it.what, it.owner.tag)
+	m.classes["returned_scribbled:"+m.si.name] = true
+	it.owner.check("after scribbling over / appending to a slice returned by " + it.what)
+	if it.owner != m {
+		m.check("after scribbling over a slice returned by another instance")
+	}
 }
 
 func (m *machine) logf(f string, a ...interface{}) { m.log = append(m.log, fmt.Sprintf(f, a...)) }
@@ -165,9 +237,11 @@ func (m *machine) reset() {
 	m.h.Reset()
 	m.state = append([]byte{}, m.si.iv...)
 	m.concat, m.concatOK, m.needRst = nil, true, false
+	m.pending = false
 	m.logf("Reset")
 	m.classes["op:reset"] = true
 	m.noteNonWrite()
+	m.verifyKept("Reset")
 }
 
 func (m *machine) noteNonWrite() {
@@ -197,6 +271,16 @@ func (m *machine) check(why string) {
 	if !bytes.Equal(d, m.state) {
 		m.fail("%s: Sum(nil) = %x, model digest %x", why, d, m.state)
 	}
+	m.pending = false
+	m.verifyKept("Sum(nil) [" + why + "]")
+	if m.keep != nil {
+		for _, it := range m.keep.items {
+			// an earlier, untouched Sum(nil) result of this hasher survived a Sum(nil) that produced another digest
+			if it.owner == m && it.what == "Sum(nil)" && !it.scribbled && !bytes.Equal(it.digest, m.state) {
+				m.classes["sum_nil_kept_across_calls:"+m.si.name] = true
+			}
+		}
+	}
 }
 
 func (m *machine) maybeCheck() {
@@ -208,10 +292,24 @@ func (m *machine) maybeCheck() {
 }
 
 func (m *machine) write() {
+	kind := rapid.SampledFrom([]string{"empty", "short", "one", "one", "multi", "multi", "nonmultiple", "noncanonical", "shorttail_or_nonmultiple"}).Draw(m.t, "wkind")
+	m.writeKind(kind, true)
+}
+
+// refusedMid is the history Write(accepted), Write(refused), Write(accepted), Sum: the refused call happens
+// while accepted data is still pending and the stream continues afterwards.
+func (m *machine) refusedMid() {
+	m.writeKind(rapid.SampledFrom([]string{"one", "multi", "short"}).Draw(m.t, "k1"), false)
+	m.writeKind(rapid.SampledFrom([]string{"noncanonical", "noncanonical", "nonmultiple"}).Draw(m.t, "k2"), false)
+	m.writeKind(rapid.SampledFrom([]string{"one", "multi"}).Draw(m.t, "k3"), false)
+	m.logf("Sum(nil)✓")
+	m.check("after Write, refused Write, Write")
+}
+
+func (m *machine) writeKind(kind string, mayCheck bool) {
 	m.ensureDefined()
 	si, t := m.si, m.t
 	B := si.blockSize
-	kind := rapid.SampledFrom([]string{"empty", "short", "one", "one", "multi", "multi", "nonmultiple", "noncanonical", "shorttail_or_nonmultiple"}).Draw(t, "wkind")
 	var p []byte
 	switch kind {
 	case "empty":
@@ -288,6 +386,9 @@ func (m *machine) write() {
 			m.fail("Write returned n=%d for %d admissible bytes (io.Writer: 0 <= n <= len(p), n < len(p) only with an error)", n, len(arg))
 		}
 		m.state = next
+		if len(p) > 0 {
+			m.pending = true
+		}
 		if len(p)%B == 0 && m.concatOK {
 			m.concat = append(m.concat, p...)
 		} else if len(p)%B != 0 {
@@ -298,18 +399,30 @@ func (m *machine) write() {
 		if err == nil {
 			m.fail("Write accepted inadmissible input (kind %s, len %d, block %d), n=%d", kind, len(arg), B, n)
 		}
-		if n < 0 || n > len(arg) {
-			m.fail("Write returned n=%d with an error for %d bytes", n, len(arg))
+		// the stream continues after a refused call: the model keeps what was accepted
+		st, wn := si.refused(m.state, p, m.c.le)
+		if n != wn {
+			m.fail("refused Write (kind %s, %d bytes) returned n=%d, expected %d (bytes consumed before the refused block)", kind, len(arg), n, wn)
 		}
-		m.needRst = true // after an error only Reset is assumed to restore a defined state
-		m.logf("→error")
+		if m.pending {
+			m.classes["refused_write_with_pending_data:"+si.name] = true
+		}
+		m.state = st
+		if wn > 0 {
+			m.pending = true
+			if m.concatOK {
+				m.concat = append(m.concat, p[:wn]...)
+			}
+		}
+		m.logf("→error(n=%d)", n)
 	}
 	m.nWrites++
 	if m.nWrites >= 2 {
 		m.nontriv = true
 	}
 	m.lastWasW = true
-	if ok {
+	m.verifyKept("Write")
+	if ok && mayCheck {
 		m.maybeCheck()
 	}
 }
@@ -325,8 +438,11 @@ func (m *machine) sum() {
 	m.ensureDefined()
 	t := m.t
 	var prefix, backing []byte
-	kind := rapid.SampledFrom([]string{"nil", "prefix", "prefix_block", "prefix_spare"}).Draw(t, "skind")
+	kind := rapid.SampledFrom([]string{"nil", "nil", "prefix", "prefix_exact", "prefix_block", "prefix_spare"}).Draw(t, "skind")
 	switch kind {
+	case "prefix_exact": // exact capacity: the append must allocate
+		p := rapid.SliceOfN(rapid.Byte(), 1, m.si.blockSize+3).Draw(t, "prefix")
+		prefix = append(make([]byte, 0, len(p)), p...)
 	case "prefix":
 		prefix = rapid.SliceOfN(rapid.Byte(), 1, 2*m.si.blockSize+3).Draw(t, "prefix")
 	case "prefix_block": // a prefix that looks like admissible input must not be absorbed either
@@ -353,11 +469,21 @@ func (m *machine) sum() {
 	if len(backing) > len(pre)+m.si.digestSize && !bytes.Equal(backing[len(pre)+m.si.digestSize:], full[len(pre)+m.si.digestSize:]) {
 		m.fail("Sum wrote beyond the appended digest in the caller's array")
 	}
-	// aliasing: scribble over the returned digest; the hasher must not notice
-	for i := len(pre); i < len(out); i++ {
-		out[i] ^= 0x5A
+	// the returned slice is kept: no later call (on any instance) may change it. Half of them are scribbled
+	// over right away (the hasher must not notice), the others stay untouched until a later scribble action.
+	it := &kept{live: out, what: "Sum(" + kind + ")", owner: m, digest: append([]byte{}, m.state...)}
+	if rapid.Bool().Draw(t, "scribbleNow") {
+		for i := len(pre); i < len(out); i++ {
+			out[i] ^= 0x5A
+		}
+		it.scribbled = true
+		m.classes["returned_scribbled:"+m.si.name] = true
+	}
+	if m.keep != nil {
+		m.keep.add(it)
 	}
 	m.classes["sum:"+kind] = true
+	m.pending = false
 	m.noteNonWrite()
 	m.check("after Sum (idempotence / non-mutation / no aliasing)")
 }
@@ -373,10 +499,19 @@ func (m *machine) getState() {
 		m.fail("State() = %x, model %x", s, m.state)
 	}
 	m.saved = append(m.saved, append([]byte{}, s...))
-	for i := range s { // aliasing
-		s[i] ^= 0xC3
+	it := &kept{live: s, what: "State()", owner: m, digest: append([]byte{}, m.state...)}
+	if rapid.Bool().Draw(m.t, "scribbleNow") {
+		for i := range s { // aliasing
+			s[i] ^= 0xC3
+		}
+		it.scribbled = true
+		m.classes["returned_scribbled:"+m.si.name] = true
+	}
+	if m.keep != nil {
+		m.keep.add(it)
 	}
 	m.classes["op:state"] = true
+	m.pending = false
 	m.noteNonWrite()
 	m.check("after State (returned slice mutated)")
 }
@@ -432,7 +567,8 @@ func (m *machine) setState() {
 		if err == nil {
 			m.fail("SetState accepted an invalid state (%s)", kind)
 		}
-		m.needRst = true
+		// a refused SetState leaves the hasher as it was (the element is decoded before anything is assigned)
+		m.check("after a refused SetState")
 		return
 	}
 	if err != nil {
@@ -443,6 +579,7 @@ func (m *machine) setState() {
 	}
 	m.state = keep
 	m.concat, m.concatOK = nil, false
+	m.pending = false
 	for i := range s { // aliasing: the hasher must have copied
 		s[i] ^= 0x3C
 	}
@@ -473,6 +610,8 @@ func (m *machine) writeString() {
 	m.classes["op:writestring"] = true
 	m.nWrites++
 	m.lastWasW = true
+	m.pending = true
+	m.verifyKept("WriteString")
 	m.maybeCheck()
 }
 
@@ -532,7 +671,7 @@ func TestC14_Stream(t *testing.T) {
 			}
 			rapid.Check(t, func(t *rapid.T) {
 				c := rapid.SampledFrom(si.ctors).Draw(t, "ctor")
-				m := &machine{t: t, si: si, c: c, h: c.new(), state: append([]byte{}, si.iv...), concatOK: true, classes: map[string]bool{"ctor:" + c.name: true}}
+				m := &machine{t: t, si: si, c: c, h: c.new(), state: append([]byte{}, si.iv...), concatOK: true, classes: map[string]bool{"ctor:" + c.name: true}, keep: &keptSet{}}
 				m.check("fresh hasher")
 				t.Repeat(map[string]func(*rapid.T){
 					"Write":       func(*rapid.T) { m.write() },
@@ -543,6 +682,8 @@ func TestC14_Stream(t *testing.T) {
 					"SetState":    func(*rapid.T) { m.setState() },
 					"WriteString": func(*rapid.T) { m.writeString() },
 					"Resplit":     func(*rapid.T) { m.resplit() },
+					"RefusedMid":  func(*rapid.T) { m.refusedMid() },
+					"Scribble":    func(*rapid.T) { m.scribbleKept() },
 				})
 				if m.needRst {
 					m.reset()
